@@ -166,4 +166,143 @@ theorem goSplit_ok (lo hi df : Nat) (w : Wide lo hi df) : SplitOk goSplit df lo 
           rw [Nat.succ_mul] at e3
           omega
 
+theorem succ_mul' (i P : Nat) : (i + 1) * P = i * P + P := by rw [Nat.add_mul, Nat.one_mul]
+
+/-- every part of a wide range is a non-empty sub-range -/
+theorem child_wf (lo hi df i : Nat) (w : Wide lo hi df) (hi' : i < df) :
+    lo ≤ (childRange lo hi df i).1 ∧ (childRange lo hi df i).1 ≤ (childRange lo hi df i).2 ∧
+      (childRange lo hi df i).2 ≤ hi := by
+  obtain ⟨hP, hal, hsum⟩ := split_facts lo hi df w
+  have h1 := w.le
+  have hdf := w.df2
+  have e1 : df * perRange lo hi df = (df - 1) * perRange lo hi df + perRange lo hi df := by
+    have := succ_mul' (df - 1) (perRange lo hi df)
+    rw [Nat.sub_add_cancel (by omega)] at this
+    exact this
+  have e2 : i * perRange lo hi df ≤ (df - 1) * perRange lo hi df :=
+    Nat.mul_le_mul_right _ (by omega)
+  rw [child_closed lo hi df i w hi']
+  simp only []
+  by_cases hlast : i = df - 1
+  · simp only [hlast, if_true]
+    rw [hlast] at e2
+    omega
+  · simp only [hlast, if_false]
+    have e3 : (i + 1) * perRange lo hi df ≤ (df - 1) * perRange lo hi df :=
+      Nat.mul_le_mul_right _ (by omega)
+    rw [succ_mul'] at e3
+    omega
+
+theorem genLoop_zero (df per al i j : Nat) : genLoop df per al 0 i j = [] := rfl
+
+theorem genLoop_succ (df per al n i j : Nat) :
+    genLoop df per al (n + 1) i j =
+      (j, (j + (if i = df - 1 then per + al else per) + M - 1) % M) ::
+        genLoop df per al n (i + 1) ((j + (if i = df - 1 then per + al else per)) % M) := rfl
+
+/-- the loop of `genTupleRanges` produces exactly the closed-form parts, in order -/
+theorem genLoop_eq (lo hi df : Nat) (w : Wide lo hi df) :
+    ∀ n i, i + n = df →
+      genLoop df (perRange lo hi df) (align lo hi df) n i (lo + i * perRange lo hi df)
+        = (List.range' i n).map (childRange lo hi df) := by
+  obtain ⟨hP, hal, hsum⟩ := split_facts lo hi df w
+  have e1 : df * perRange lo hi df = (df - 1) * perRange lo hi df + perRange lo hi df := by
+    have := succ_mul' (df - 1) (perRange lo hi df)
+    rw [Nat.sub_add_cancel (by have := w.df2; omega)] at this
+    exact this
+  have h1 := w.le
+  have h2 := w.lt
+  intro n
+  induction n with
+  | zero => intro i _; rfl
+  | succ n ih =>
+    intro i hin
+    have hi' : i < df := by omega
+    have e2 : i * perRange lo hi df ≤ (df - 1) * perRange lo hi df :=
+      Nat.mul_le_mul_right _ (by omega)
+    rw [List.range'_succ, List.map_cons, child_closed lo hi df i w hi', genLoop_succ]
+    by_cases hlast : i = df - 1
+    · have hn : n = 0 := by omega
+      subst hn
+      rw [if_pos hlast, if_pos hlast, genLoop_zero, List.range'_zero, List.map_nil]
+      have hend : (lo + i * perRange lo hi df + (perRange lo hi df + align lo hi df) + M - 1) % M = hi := by
+        rw [end_mod _ (by omega) (by rw [hlast]; omega)]
+        rw [hlast]; omega
+      rw [hend]
+    · have e3 : (i + 1) * perRange lo hi df ≤ (df - 1) * perRange lo hi df :=
+        Nat.mul_le_mul_right _ (by omega)
+      have e4 := succ_mul' i (perRange lo hi df)
+      rw [if_neg hlast, if_neg hlast]
+      rw [end_mod _ (by omega) (by omega), mod_small _ (by omega)]
+      have hj : lo + i * perRange lo hi df + perRange lo hi df = lo + (i + 1) * perRange lo hi df := by
+        omega
+      rw [hj, ih (i + 1) (by omega)]
+
+/-- **genTupleRanges_partition**: for a wide range the Go loop returns the `df` parts
+`childRange lo hi df 0 … df-1`, which by `goSplit_ok` / `parts_consecutive` are consecutive,
+non-empty, disjoint, inside `[lo,hi]` and cover it. -/
+theorem genTupleRanges_eq (lo hi df : Nat) (w : Wide lo hi df) :
+    genTupleRanges lo hi df = (List.range df).map (childRange lo hi df) := by
+  unfold genTupleRanges
+  have := genLoop_eq lo hi df w df 0 (by omega)
+  simp only [Nat.zero_mul, Nat.add_zero] at this
+  rw [this, List.range_eq_range']
+
+/-- part `i+1` starts right after part `i` ends; the first starts at `lo`, the last ends at `hi` -/
+theorem parts_consecutive (lo hi df i : Nat) (w : Wide lo hi df) (hi' : i + 1 < df) :
+    (childRange lo hi df (i + 1)).1 = (childRange lo hi df i).2 + 1 ∧
+    (childRange lo hi df 0).1 = lo ∧ (childRange lo hi df (df - 1)).2 = hi := by
+  obtain ⟨hP, _, _⟩ := split_facts lo hi df w
+  have hdf := w.df2
+  refine ⟨?_, ?_, ?_⟩
+  · rw [child_closed lo hi df (i + 1) w hi', child_closed lo hi df i w (by omega)]
+    have hne : i ≠ df - 1 := by omega
+    simp only [hne, if_false]
+    rw [succ_mul' i (perRange lo hi df)]
+    omega
+  · rw [child_closed lo hi df 0 w (by omega)]
+    simp only [Nat.zero_mul, Nat.add_zero]
+  · rw [child_closed lo hi df (df - 1) w (by omega)]
+    simp only [if_true]
+
+/-! ### the width hypothesis for the Go arithmetic, from "no narrow range over the threshold" -/
+
+/-- no range that must be divided is narrower than `df` (what `widthSafe` checks in the harness) -/
+def NoNarrow (p : Params) (sl : List Elem) : Nat → Nat → Nat → Prop
+  | 0, lo, hi => (slRange sl lo hi).length ≤ p.thr
+  | f + 1, lo, hi => (slRange sl lo hi).length ≤ p.thr ∨
+      (p.df ≤ hi - lo + 1 ∧
+        ∀ i, i < p.df → NoNarrow p sl f (childRange lo hi p.df i).1 (childRange lo hi p.df i).2)
+
+theorem widthOk_go (p : Params) (sl : List Elem) (hdf : 2 ≤ p.df) :
+    ∀ f lo hi, lo ≤ hi → hi < M → NoNarrow p sl f lo hi → WidthOk goSplit p sl f lo hi := by
+  intro f
+  induction f with
+  | zero => intro lo hi _ _ h; exact h
+  | succ f ih =>
+    intro lo hi h1 h2 h
+    simp only [NoNarrow] at h
+    simp only [WidthOk]
+    rcases h with h | ⟨hw, hk⟩
+    · left; exact h
+    · right
+      have w : Wide lo hi p.df := ⟨h1, h2, hdf, hw⟩
+      refine ⟨goSplit_ok lo hi p.df w, ?_⟩
+      intro i hi'
+      show WidthOk goSplit p sl f (childRange lo hi p.df i).1 (childRange lo hi p.df i).2
+      have hc := child_wf lo hi p.df i w hi'
+      exact ih _ _ hc.2.1 (by omega) (hk i hi')
+
+theorem topOk_go (p : Params) (sl : List Elem) (hdf : 2 ≤ p.df) (hM : p.df ≤ M)
+    (h : ∀ i, i < p.df →
+      NoNarrow p sl depthFuel (childRange 0 (M - 1) p.df i).1 (childRange 0 (M - 1) p.df i).2) :
+    TopOk goSplit p sl := by
+  have hM0 : 0 < M := by simp [M]
+  have w : Wide 0 (M - 1) p.df := ⟨Nat.zero_le _, by omega, hdf, by omega⟩
+  refine ⟨goSplit_ok 0 (M - 1) p.df w, ?_⟩
+  intro i hi'
+  show WidthOk goSplit p sl depthFuel (childRange 0 (M - 1) p.df i).1 (childRange 0 (M - 1) p.df i).2
+  have hc := child_wf 0 (M - 1) p.df i w hi'
+  exact widthOk_go p sl hdf depthFuel _ _ hc.2.1 (by omega) (h i hi')
+
 end AnySync.Ldiff
